@@ -218,7 +218,7 @@ ValsOf(t, m) ==
     [] t = "esds" -> {VEsds(m, a) : a \in {1, 2, 30, 32, 36, 46}}
     [] t = "mp4a" -> {VMp4a(m, a) : a \in {0, 2, 34}}
     [] t = "tx3g" -> {VTx3g(m)}
-    [] t = "stsd" -> {VStsd(m, k) : k \in {"avc1", "hev1", "vp09", "mp4a", "tx3g"}}
+    [] t = "stsd" -> {VStsd(m, k) : k \in {"avc1", "hev1", "vp09", "mp4a", "tx3g", "none"}}    \* "none": no sample entry (the Default value)
     [] t = "stbl" -> {VStbl(m, o) : o \in SUBSET {"ctts", "stss", "co64"}}
     [] t = "minf" -> {VMinf(m, h) : h \in {"vmhd", "smhd", "none"}}
     [] t = "mdia" -> {VMdia(m)}
